@@ -332,6 +332,88 @@ INDICATOR_STUBS = "\n".join("#[kani::stub(%s, crate::verif_support::indicator::%
     ("crate::chess::zobrist::en_passant", "en_passant"), ("crate::chess::zobrist::side_to_play", "side_to_play"),
     ("crate::engine::eval::piece_square_tables::piece_contributions", "piece_contributions")])
 
+def desugar_inline_format(text, locator):
+    """format!("..{name}..", a, b)  ->  format!("..{}..", <args in placeholder order, `name` inserted where it is captured>)
+    Rust's own definition of implicit named-argument capture, applied mechanically so that a macro_rules `format!` (which
+    cannot see the call site's locals through a string literal) can stand in.  Format specs ({:>3}, {x:?}) are not supported:
+    anchor lost."""
+    out = []
+    i = 0
+    for m in re.finditer(r"\bformat!\s*\(", text):
+        if m.start() < i:
+            continue
+        k = m.end()
+        depth = 1
+        j = k
+        in_str = False
+        while j < len(text) and depth:
+            c = text[j]
+            if in_str:
+                if c == "\\":
+                    j += 1
+                elif c == '"':
+                    in_str = False
+            else:
+                if c == '"':
+                    in_str = True
+                elif c in "([{":
+                    depth += 1
+                elif c in ")]}":
+                    depth -= 1
+            j += 1
+        inner = text[k:j - 1]
+        lm = re.match(r'\s*"((?:[^"\\]|\\.)*)"\s*(,|$)', inner, re.S)
+        if not lm:
+            raise LookupError("anchor lost: format! without a literal format string in %s" % locator)
+        lit = lm.group(1)
+        rest = inner[lm.end():]
+        # split rest at top-level commas
+        args, cur, d, ins = [], "", 0, False
+        for ch in rest:
+            if ins:
+                cur += ch
+                if ch == '"':
+                    ins = False
+                continue
+            if ch == '"':
+                ins = True
+                cur += ch
+            elif ch in "([{":
+                d += 1
+                cur += ch
+            elif ch in ")]}":
+                d -= 1
+                cur += ch
+            elif ch == "," and d == 0:
+                args.append(cur)
+                cur = ""
+            else:
+                cur += ch
+        if cur.strip():
+            args.append(cur)
+        args = [a for a in args if a.strip()]
+        new_args, pos = [], 0
+        def ph(mm):
+            nonlocal pos
+            name = mm.group(1)
+            if name == "":
+                if pos >= len(args):
+                    raise LookupError("anchor lost: format! placeholder without argument in %s" % locator)
+                new_args.append(args[pos].strip())
+                pos += 1
+            elif re.match(r"^[A-Za-z_][A-Za-z0-9_]*$", name):
+                new_args.append(name)
+            else:
+                raise LookupError("anchor lost: unsupported format spec {%s} in %s" % (name, locator))
+            return "{}"
+        new_lit = re.sub(r"\{([^{}]*)\}", ph, lit)
+        out.append(text[i:m.start()])
+        out.append('format!("%s"%s)' % (new_lit, "".join(", " + a for a in new_args)))
+        i = j
+    out.append(text[i:])
+    return "".join(out)
+
+
 BODY_RE = re.compile(r"^[ \t]*//@@[ \t]*body[ \t]*:[ \t]*(\S+)[ \t]*::[ \t]*(.*?)[ \t]*=>[ \t]*(\w+)[ \t]*(.*)$", re.M)
 
 
@@ -494,6 +576,11 @@ def expand_bodies(text, root, record):
                     raise LookupError("anchor lost: subst %r not found in %s" % (a, locator))
                 new = new.replace(a, b)
                 drops.append("%s=>%s" % (a, b))
+        if "inline-format" in opts.split():
+            new2 = desugar_inline_format(new, locator)
+            if new2 != new:
+                drops.append("format! implicit named arguments written out positionally (Rust's own desugaring)")
+            new = new2
         record.append({"source": ("src/" + rel) if not rel.startswith("src/") else rel, "item": locator,
                        "sha256_of_source_span": h, "renamed_to": newname, "substitutions": drops})
         prefix = "pub " if ("pub" in opts.split() and not new.lstrip().startswith("pub")) else ""
